@@ -192,3 +192,31 @@ Theorem C05_dropped_export_source_refuted :       (* F8 *)
     agreeb top (griffe_sched top ms order) (py_table (py_import ms order [])) = true.
 Proof. exact dropped_export_source_refuted. Qed.
 Print Assumptions C05_dropped_export_source_refuted.
+
+(* ---- names and targets, one module: the induction step of the composition over a dependency order ----------------------------- *)
+(* R n m v reads "the member m found under the name n presents the value v" (in the full model: the final target of m is v).
+   Given that what each statement imports is already related -- definitions to the objects they define, `from T import x` to the
+   value CPython reads, `import a.b.c` to the module, a wildcard import of T exposing exactly what CPython copies from T, member by
+   member -- the members Griffe ends up with (visitor, then the line-number rule on every wildcard) and the namespace CPython ends up
+   with bind the same names, to related things.  Restrictions, stated as hypotheses: one statement per line, no skipped
+   `from . import x` (bind_of <> None), the name __all__ itself and the `a/b/*` pseudo-names aside. *)
+Theorem C05_module_names_and_targets_eq_cpython :
+  forall mp is_init (X : path -> list (string * member)),
+  (forall T, NoDup (map fst (X T))) ->
+  forall (ms : list modsrc) (t : pytable) (R : string -> member -> value -> Prop),
+  (forall a k ln, R a (MObj k ln) (VObj k (mp ++ [a]))) ->
+  (forall ln T x asn bare a pm v,
+     bind_of mp is_init (SFrom ln T x asn bare) = Some (a, MAlias (T ++ [x]) ln false) ->
+     from_value mp ms t pm T x = POk v -> R a (MAlias (T ++ [x]) ln false) v) ->
+  (forall ln T a, R a (MAlias T ln false) (VMod T)) ->
+  (forall ln T tm n, get_py t T = Some tm ->
+     (In n (py_star_names tm) <-> lookup n (X T) <> None) /\
+     (forall m v, lookup n (X T) = Some m -> py_attr ms t T n = POk v -> R n (MWrap (T ++ [n]) m ln) v)) ->
+  forall body pm,
+  body_ok mp is_init body ->
+  (forall s ln T x asn bare, In s body -> s = SFrom ln T x asn bare -> bind_of mp is_init s <> None) ->
+  py_body ms t mp (mkPy [] None) body = POk pm ->
+  forall n, not_all n -> ~ is_star_name n ->
+  rel R n (lookup n (two_phase mp is_init X body)) (lookup n (pns pm)).
+Proof. exact module_names_eq_cpython. Qed.
+Print Assumptions C05_module_names_and_targets_eq_cpython.
